@@ -32,6 +32,15 @@ pub fn parse_query_string(input: &str) -> Result<Request, ParseRequestError> {
         pub extensions: Option<String>,
     }
 
+    // `serde_urlencoded` percent-decodes lossily: bytes that are not UTF-8 would silently become
+    // U+FFFD. Such a query string is malformed, exactly like the same bytes in a JSON body.
+    if !percent_decodes_to_utf8(input) {
+        return Err(std::io::Error::other(
+            "invalid query string: percent-encoded bytes are not UTF-8",
+        )
+        .into());
+    }
+
     let request: RequestSerde = serde_urlencoded::from_str(input).map_err(std::io::Error::other)?;
     let variables = request
         .variables
@@ -54,6 +63,31 @@ pub fn parse_query_string(input: &str) -> Result<Request, ParseRequestError> {
         ..Request::new(request.query)
     }
     .disallow_mutation())
+}
+
+/// Whether the percent-escapes of a query string spell valid UTF-8 (a `%` that is not followed by two
+/// hexadecimal digits stands for itself, as in `application/x-www-form-urlencoded` parsing).
+fn percent_decodes_to_utf8(input: &str) -> bool {
+    let bytes = input.as_bytes();
+    if !bytes.contains(&b'%') {
+        return true;
+    }
+    let hex = |b: Option<&u8>| b.and_then(|b| (*b as char).to_digit(16));
+    let mut decoded = Vec::with_capacity(bytes.len());
+    let mut i = 0;
+    while i < bytes.len() {
+        match (bytes[i], hex(bytes.get(i + 1)), hex(bytes.get(i + 2))) {
+            (b'%', Some(h), Some(l)) => {
+                decoded.push((h * 16 + l) as u8);
+                i += 3;
+            }
+            (b, _, _) => {
+                decoded.push(b);
+                i += 1;
+            }
+        }
+    }
+    std::str::from_utf8(&decoded).is_ok()
 }
 
 /// Receive a GraphQL request from a content type and body.
